@@ -422,9 +422,28 @@ def namesSs : List Stmt → List String
   | s :: ss => namesS s ++ namesSs ss
 end
 
+/-- the index `k` with `s = tmpName k`, if `s` has the form of a temporary -/
+def tempIdx (s : String) : Option Nat :=
+  match s.toList with
+  | 't' :: 'm' :: 'p' :: '_' :: rest =>
+      (match (String.ofList rest).toNat? with
+       | some m => if 1001 ≤ m && s == tmpName (m - 1001) then some (m - 1001) else none
+       | none => none)
+  | _ => none
+
+/-- a name of the program is one of the temporaries this very transformation generates
+(`DummyGensym` does not look at the program): it is overwritten / captured -/
+def tempCaptured (cfg : Config) (s : Stmt) : Bool :=
+  let n' := match visitS cfg s 0 [] with
+    | .ok r => r.2.1
+    | .error _ => 0
+  (namesS s).any fun x => match tempIdx x with
+    | some k => k < n'
+    | none => false
+
 /-- All hazard classes of a program under a configuration (duplicates removed). -/
 def hazards (cfg : Config) (s : Stmt) : List String :=
-  (hazS cfg s ++ (if (namesS s).any isTempName then [H_TEMPNAME] else [])).eraseDups
+  (hazS cfg s ++ (if tempCaptured cfg s then [H_TEMPNAME] else [])).eraseDups
 
 /-- The hypothesis of `C18_sem_partial`. -/
 def NoHazard (cfg : Config) (s : Stmt) : Prop := hazards cfg s = []
